@@ -27,7 +27,86 @@ PASS_OK = {"utf-8": ((0, 127),), "utf8": ((0, 127),), "ascii": ((0, 127),), "us-
            "cp1252": ((0, 255),), "windows-1252": ((0, 255),)}
 
 
+class Callee:
+    """a repository function a call inside the escaper denotes (frame of the interval analysis)"""
+
+    def __init__(self, fi):
+        self.fi = fi
+        self.node = fi.node
+        self.module = fi.module
+        self.cls = fi.cls
+        self.name = fi.short
+        self.skip_first = bool(fi.cls) and not fi.is_static and fi.parent is None
+
+
+def resolve_call(pm, owner, c: ast.Call, frame=None):
+    """repository function called by `c`, seen from function `owner` (FuncInfo) or a callee frame"""
+    module = frame.module if frame is not None else owner.module
+    cls = frame.cls if frame is not None else owner.cls
+    scope = frame.fi if frame is not None else owner
+    f = c.func
+    target = None
+    if isinstance(f, ast.Name):
+        cur = scope
+        while cur is not None and target is None:      # nested helper of the enclosing function(s)
+            target = pm.funcs.get(f"{cur.short}.<locals>.{f.id}")
+            cur = cur.parent
+        if target is None:
+            r = pm.resolve(module, f.id)
+            if r and r[0] == "func":
+                target = r[1]
+    elif isinstance(f, ast.Attribute) and isinstance(f.value, ast.Name):
+        base = f.value.id
+        if base in ("self", "cls") and cls:
+            target = pm.find_method(cls, f.attr)
+        else:
+            r = pm.resolve(module, base)
+            if r and r[0] == "class":
+                target = pm.find_method(r[1].name, f.attr)
+    if target is None or not isinstance(target.node, (ast.FunctionDef,)):
+        return None
+    return Callee(target)
+
+
+class EscLoop:
+    """a per-character iteration `for c in <text>` in statement or comprehension form, normalised to
+    (loop variable, body statements, accumulator)"""
+
+    SYN_ACC = "acc\0"
+
+    def __init__(self, node, var: str, body: list, acc: str | None):
+        self.node, self.var, self.body, self.acc = node, var, body, acc
+
+
+def _takes_ord(pm, owner, node, var: str, frame=None, depth: int = 0) -> bool:
+    """ord(var) is evaluated under `node`, directly or in a repository helper that receives var"""
+    for c in ast.walk(node):
+        if not isinstance(c, ast.Call):
+            continue
+        if dotted(c.func) == "ord" and c.args and isinstance(c.args[0], ast.Name) and c.args[0].id == var:
+            return True
+        if depth < 3 and any(isinstance(a, ast.Name) and a.id == var for a in list(c.args) + [k.value for k in c.keywords]):
+            callee = resolve_call(pm, owner, c, frame)
+            if callee is None:
+                continue
+            params = [a.arg for a in list(callee.node.args.posonlyargs) + list(callee.node.args.args)]
+            if callee.skip_first:
+                params = params[1:]
+            for i, a in enumerate(c.args):
+                if isinstance(a, ast.Name) and a.id == var and i < len(params) and \
+                        _takes_ord(pm, owner, callee.node, params[i], callee, depth + 1):
+                    return True
+            for k in c.keywords:
+                if isinstance(k.value, ast.Name) and k.value.id == var and k.arg in params and \
+                        _takes_ord(pm, owner, callee.node, k.arg, callee, depth + 1):
+                    return True
+    return False
+
+
 def find_escape_loop(ctx: Ctx, cg: CallGraph):
+    """the escaper, recognised by role: an iteration over the characters of a string, reachable from the
+    entry point, whose body takes ord() of the character (directly or through a helper).  Statement loops
+    and comprehensions / generator expressions (`''.join(f(c) for c in text)`) are both accepted."""
     pm = ctx.pm
     cands = []
     for short in sorted(cg.reachable([ENTRY])):
@@ -36,10 +115,21 @@ def find_escape_loop(ctx: Ctx, cg: CallGraph):
             continue
         for n in walk_no_nested(fi.node):
             if isinstance(n, ast.For) and isinstance(n.target, ast.Name):
-                tv = n.target.id
-                if any(isinstance(c, ast.Call) and dotted(c.func) == "ord" and c.args and isinstance(c.args[0], ast.Name)
-                       and c.args[0].id == tv for c in ast.walk(n)):
-                    cands.append((fi, n))
+                if _takes_ord(pm, fi, ast.Module(body=n.body, type_ignores=[]), n.target.id):
+                    cands.append((fi, EscLoop(n, n.target.id, n.body, acc_of(n))))
+            elif isinstance(n, (ast.GeneratorExp, ast.ListComp)) and len(n.generators) == 1 \
+                    and isinstance(n.generators[0].target, ast.Name):
+                g = n.generators[0]
+                if _takes_ord(pm, fi, n.elt, g.target.id) or any(_takes_ord(pm, fi, c, g.target.id) for c in g.ifs):
+                    app = ast.Expr(value=ast.Call(func=ast.Attribute(value=ast.Name(id=EscLoop.SYN_ACC, ctx=ast.Load()), attr="append", ctx=ast.Load()),
+                                                  args=[n.elt], keywords=[]))
+                    body: list = [app]
+                    for cnd in reversed(g.ifs):
+                        body = [ast.If(test=cnd, body=body, orelse=[])]
+                    for b in body:
+                        ast.copy_location(b, n)
+                        ast.fix_missing_locations(b)
+                    cands.append((fi, EscLoop(n, g.target.id, body, EscLoop.SYN_ACC)))
     if not cands:
         raise AnalysisError("no per-character escaping loop (for c in text: … ord(c) …) reachable from " + ENTRY)
     return cands
@@ -49,8 +139,9 @@ def acc_of(loop: ast.For) -> str | None:
     names = []
     for n in ast.walk(loop):
         if isinstance(n, ast.AugAssign) and isinstance(n.target, ast.Name) and isinstance(n.op, ast.Add):
-            # a string accumulator: its increment mentions the loop variable or an f-string
-            if any(isinstance(x, (ast.JoinedStr,)) or (isinstance(x, ast.Name) and x.id == loop.target.id) for x in ast.walk(n.value)):
+            # a string accumulator: its increment mentions the loop variable, an f-string or a string literal
+            if any(isinstance(x, (ast.JoinedStr,)) or (isinstance(x, ast.Name) and x.id == loop.target.id)
+                   or (isinstance(x, ast.Constant) and isinstance(x.value, str)) for x in ast.walk(n.value)):
                 names.append(n.target.id)
         if isinstance(n, ast.Assign) and len(n.targets) == 1 and isinstance(n.targets[0], ast.Name) and \
                 isinstance(n.value, ast.BinOp) and isinstance(n.value.left, ast.Name) and n.value.left.id == n.targets[0].id \
@@ -81,7 +172,9 @@ def write_encodings(ctx: Ctx) -> set:
                 if isinstance(c.func, ast.Attribute) and c.func.attr == "write_text" and len(c.args) > 1:
                     enc = const_expr(pm, fi.module, c.args[1])
                 ctx.instance("R10.4", fi.where(c), f"{short}: {unparse(c.func)}(…, encoding={enc!r})")
-                if enc is None or enc is NOC:
+                if enc is NOC:
+                    ctx.gap("R10.4", f"{short}: the encoding argument of `{unparse(c)[:60]}` could not be evaluated to a constant")
+                elif enc is None:
                     ctx.violation("R10.4", short, "write without explicit encoding", fi.where(c),
                                   f"{short}: RTF text is written without an explicit encoding (platform default decides the bytes)")
                 else:
@@ -100,49 +193,35 @@ def _mode_is_write(c: ast.Call) -> bool:
     return isinstance(mode, str) and ("w" in mode or "a" in mode) and "b" not in mode
 
 
-def r10_5(ctx: Ctx, cg, fi, loop) -> None:
-    """the escape loop is executed on every path that returns text"""
+def r10_5(ctx: Ctx, worlds: dict) -> None:
+    """the escaping step cannot be skipped: for either value of the conversion flag, everything the entry point
+    returns is the output of the per-character escaper (or an empty constant).  Decided on the symbolic runs of the
+    text pipeline (rules/c11.py: Sym), so guard clauses, helpers and temporaries do not matter."""
     pm = ctx.pm
     entry = pm.func(ENTRY)
-
-    def unconditional(fn, node) -> str | None:
-        # node must be a top-level statement (or inside a `with`/`try` body) of fn
-        child = node
-        p = getattr(node, "_parent", None)
-        while p is not None and p is not fn:
-            if isinstance(p, (ast.If, ast.For, ast.While, ast.IfExp, ast.BoolOp)):
-                return f"nested in `{unparse(p.test) if hasattr(p, 'test') else type(p).__name__}`"
-            if isinstance(p, ast.ExceptHandler):
-                return "inside an exception handler"
-            child = p
-            p = getattr(p, "_parent", None)
-        # early returns before it must return a literal
-        for s in fn.body:
-            if s is child or any(x is node for x in ast.walk(s)):
-                break
-            for r in ast.walk(s):
-                if isinstance(r, ast.Return) and r.value is not None and not isinstance(r.value, ast.Constant):
-                    return f"early `return {unparse(r.value)}` before the escaping step"
-        return None
-
-    # chain of calls entry -> … -> function holding the loop (shortest, by the call graph)
-    chain = _call_chain(cg, ENTRY, fi.short)
-    if chain is None:
-        ctx.violation("R10.5", ENTRY, f"no call path to {fi.short}", entry.where(), f"{ENTRY} does not reach the escaping loop in {fi.short}")
-        return
-    problems = []
-    for caller_short, callnode in chain:
-        caller = pm.funcs[caller_short]
-        why = unconditional(caller.node, callnode)
-        if why:
-            problems.append((caller, callnode, why))
-    why = unconditional(fi.node, loop)
-    if why:
-        problems.append((fi, loop, why))
-    ctx.instance("R10.5", fi.where(loop), f"escape loop in {fi.short}, reached via {[c for c, _ in chain] or 'entry'}: "
-                 + ("unconditional" if not problems else problems[0][2]))
-    for f2, node, why in problems:
-        ctx.violation("R10.5", f2.short, why, f2.where(node), f"the escaping step can be skipped in {f2.short}: {why}")
+    for flag in (True, False):
+        sy, texts, rest = worlds[flag]
+        rets = getattr(sy, "entry_returns", frozenset())
+        desc = []
+        for v in sorted(rets, key=str):
+            ok, pv = sy.pyval(v)
+            if v[0] == "esc":
+                desc.append("escaper output")
+            elif ok and pv in ("", None):
+                desc.append(repr(pv))
+            elif v[0] == "text":
+                desc.append("UNESCAPED text")
+                ops = "".join(" -> " + str(o[0]) for o in v[2])
+                where = next((o[2] for o in v[2] if len(o) > 2 and o[2]), entry.where())
+                ctx.violation("R10.5", entry.short, "returns text that skipped the escaper" + (f" ({ops.strip(' ->')})" if ops else ""), where,
+                              f"with convert={flag}, {entry.short} can return the text{ops} without passing it through the per-character escaper")
+            else:
+                desc.append("? " + str(v)[:50])
+                ctx.gap("R10.5", f"convert={flag}: {entry.short} can return a value that was not produced by the escaper in this call and could not be "
+                                 f"classified ({str(v)[:80]})")
+        ctx.instance("R10.5", entry.where(), f"convert={flag}: {entry.short} returns {{" + ", ".join(desc) + "}")
+        if not any(v[0] == "esc" for v in rets) and not any(v[0] == "text" for v in rets):
+            ctx.gap("R10.5", f"convert={flag}: the output of the per-character escaper could not be followed to the value {entry.short} returns")
 
 
 def _call_chain(cg, src: str, dst: str):
@@ -169,50 +248,66 @@ def _call_chain(cg, src: str, dst: str):
     return list(reversed(out))
 
 
-def r10_1_2(ctx: Ctx, fi, loop: ast.For, pass_ok) -> None:
+def r10_1_2(ctx: Ctx, fi, loop: EscLoop, pass_ok) -> None:
     pm = ctx.pm
-    acc = acc_of(loop)
-    if acc is None:
-        ctx.violation("R10.1", fi.short, "no string accumulator", fi.where(loop), "escape loop does not build its result by appending")
+    where = fi.where(loop.node)
+    if loop.acc is None:
+        ctx.gap("R10.1", f"{fi.short}: the per-character loop at {where} has no recognisable string accumulator "
+                         "(+=, acc = acc + x, list.append + join)")
         return
 
-    def ce(node):
-        v = const_expr(pm, fi.module, node)
+    def ce(node, frame=None):
+        v = const_expr(pm, frame.module if frame is not None else fi.module, node)
         if v is NOC:
             raise ValueError("non-constant")
         return v
 
-    an = I.LoopAnalyser(ce, loop.target.id, acc)
+    an = I.LoopAnalyser(ce, loop.var, loop.acc, resolver=lambda c, frame: resolve_call(pm, fi, c, frame))
     try:
         paths = an.run(loop.body, ALL)
     except I.Unsupported as e:
-        ctx.violation("R10.1", fi.short, "unanalysable: " + str(e), fi.where(loop),
-                      f"escape loop contains a construct outside the interval analysis ({e}); its effect on code points cannot be bounded")
+        ctx.gap("R10.1", f"{fi.short}: the escape loop at {where} contains a construct outside the interval analysis ({e}); "
+                         "its effect on code points cannot be bounded")
         return
+    if an.helpers_entered:
+        ctx.extra.setdefault("escape_helpers", sorted(set(an.helpers_entered)))
+    pending: list = []
+
+    def viol(rule, key, msg, strong=False):
+        """a finding about code point sets is only positive evidence when every branch condition was related to
+        the code point; otherwise the sets are over-approximations and the finding is reported as a gap.
+        `strong` findings (character-derived text in the escape) hold on any path."""
+        if an.undecided and not strong:
+            pending.append(f"{key}: {msg}")
+        else:
+            ctx.violation(rule, fi.short, key, where, msg)
+
     covered = ()
     for p in paths:
         covered = I.union(covered, p.cps)
         desc = _pieces_desc(p.pieces)
-        ctx.instance("R10.1", fi.where(loop), f"code points {I.show(p.cps)} ({I.size(p.cps)}) -> {desc}")
+        ctx.instance("R10.1", where, f"code points {I.show(p.cps)} ({I.size(p.cps)}) -> {desc}")
         if p.exits not in ("fall", "continue"):
-            ctx.violation("R10.1", fi.short, f"loop exit {p.exits} for {I.show(p.cps)}", fi.where(loop),
-                          f"the escape loop stops ({p.exits}) at code points {I.show(p.cps)}; the rest of the text is lost")
+            viol("R10.1", f"loop exit {p.exits} for {I.show(p.cps)}",
+                 f"the escape loop stops ({p.exits}) at code points {I.show(p.cps)}; the rest of the text is lost")
             continue
         if not p.pieces:
-            ctx.violation("R10.1", fi.short, f"dropped {I.show(p.cps)}", fi.where(loop),
-                          f"code points {I.show(p.cps)} are dropped (nothing appended)")
+            viol("R10.1", f"dropped {I.show(p.cps)}", f"code points {I.show(p.cps)} are dropped (nothing appended)")
             continue
         if p.pieces == [("char",)]:
             bad = I.minus(p.cps, pass_ok)
             if bad:
-                ctx.violation("R10.1", fi.short, f"pass-through {I.show(bad)}", fi.where(loop),
-                              f"code points {I.show(bad)} are copied raw; under the file encoding and the \\ansi header "
-                              f"only {I.show(pass_ok)} decode to themselves")
+                viol("R10.1", f"pass-through {I.show(bad)}",
+                     f"code points {I.show(bad)} are copied raw; under the file encoding and the \\ansi header "
+                     f"only {I.show(pass_ok)} decode to themselves")
             continue
-        _check_escape(ctx, fi, loop, p)
+        _check_escape(ctx, fi, loop, p, viol)
     missing = I.minus(ALL, covered)
     if missing:
-        ctx.violation("R10.1", fi.short, f"uncovered {I.show(missing)}", fi.where(loop), f"no path handles code points {I.show(missing)}")
+        viol("R10.1", f"uncovered {I.show(missing)}", f"no path handles code points {I.show(missing)}", strong=True)
+    if pending:
+        ctx.gap("R10.1", f"{fi.short}: branch condition(s) {an.undecided[:3]} of the escape loop could not be related to the code point; "
+                         f"{len(pending)} finding(s) depend on them, e.g. {pending[0][:160]}")
 
 
 def _pieces_desc(pieces) -> str:
@@ -229,35 +324,40 @@ def _pieces_desc(pieces) -> str:
     return "".join(out)
 
 
-def _check_escape(ctx: Ctx, fi, loop, p) -> None:
-    where = fi.where(loop)
+def _check_escape(ctx: Ctx, fi, loop, p, viol) -> None:
+    where = fi.where(loop.node)
     # tokenise pieces into  (lit, num, lit, num, …, lit)
     nums = [pc for pc in p.pieces if pc[0] == "num"]
+    indep = [pc for pc in p.pieces if pc[0] == "other" and not pc[2]]
+    if indep and not any(pc[0] == "char" or (pc[0] == "other" and pc[2]) for pc in p.pieces):
+        ctx.gap("R10.2", f"{fi.short}: the escape for {I.show(p.cps)} contains the fragment `{indep[0][1]}` whose value "
+                         "could not be evaluated (it does not depend on the character)")
+        return
     if any(pc[0] in ("other", "char") for pc in p.pieces):
-        bad = next(pc for pc in p.pieces if pc[0] in ("other", "char"))
-        ctx.violation("R10.2", fi.short, "non-literal fallback " + (bad[1] if len(bad) > 1 else "<char>"), where,
+        bad = next(pc for pc in p.pieces if pc[0] == "char" or (pc[0] == "other" and pc[2]))
+        viol("R10.2", "non-literal fallback " + (bad[1] if len(bad) > 1 else "<char>"),
                       f"escape for {I.show(p.cps)} contains a computed fragment ({bad[1] if len(bad) > 1 else 'the raw character'}) "
-                      "where only the numeric escape and literal fallback characters are allowed")
+                      "where only the numeric escape and literal fallback characters are allowed", strong=True)
         return
     tmpl = "".join("\0" if pc[0] == "num" else pc[1] for pc in p.pieces)
     m = re.fullmatch(r"(?:\\uc(\d)\\u\0([^\\{}\0]*))+", tmpl)
     if not m:
-        ctx.violation("R10.2", fi.short, "escape template " + repr(tmpl), where,
-                      f"escape for {I.show(p.cps)} is not a sequence of \\ucN\\u<int><N fallback chars>: {tmpl!r}")
+        viol("R10.2", "escape template " + repr(tmpl),
+                      f"escape for {I.show(p.cps)} is not a sequence of \\ucN\\u<int><N fallback chars>: {tmpl!r}", strong=True)
         return
     groups = re.findall(r"\\uc(\d)\\u\0([^\\{}\0]*)", tmpl)
     for k, fb in groups:
         ctx.instance("R10.2", where, f"\\uc{k} with fallback {fb!r} for {I.show(p.cps)}")
         if int(k) != len(fb):
-            ctx.violation("R10.2", fi.short, f"uc{k} fallback {fb!r}", where,
-                          f"\\uc{k} declares {k} fallback character(s) but {len(fb)} follow ({fb!r})")
+            viol("R10.2", f"uc{k} fallback {fb!r}",
+                          f"\\uc{k} declares {k} fallback character(s) but {len(fb)} follow ({fb!r})", strong=True)
         if any(ord(ch) > 126 or ord(ch) < 32 or ch.isdigit() for ch in fb):
-            ctx.violation("R10.2", fi.short, f"fallback {fb!r}", where, f"fallback {fb!r} is not plain ASCII punctuation/letters")
+            viol("R10.2", f"fallback {fb!r}", f"fallback {fb!r} is not plain ASCII punctuation/letters", strong=True)
     # ranges
     for pc in nums:
         r = I.rng(pc[1], p.cps)
         if r is None or r[0] < -32768 or r[1] > 32767:
-            ctx.violation("R10.1", fi.short, f"\\u range {r} for {I.show(p.cps)}", where,
+            viol("R10.1", f"\\u range {r} for {I.show(p.cps)}",
                           f"escape value for code points {I.show(p.cps)} ranges over {r}, outside RTF's signed 16-bit \\u range")
     # reversibility
     if len(nums) == 1:
@@ -272,21 +372,21 @@ def _check_escape(ctx: Ctx, fi, loop, p) -> None:
             cp = p.cps[0][0]
             ok = (v % 65536) == cp
         if not ok:
-            ctx.violation("R10.1", fi.short, f"single escape {getattr(v, 'expr', v)} for {I.show(p.cps)}", where,
+            viol("R10.1", f"single escape {getattr(v, 'expr', v)} for {I.show(p.cps)}",
                           f"a single \\u escape with value {getattr(v, 'expr', v)} does not decode back to the code points {I.show(p.cps)}")
     elif len(nums) == 2:
         if I.minus(p.cps, ((0x10000, I.MAXCP),)):
-            ctx.violation("R10.1", fi.short, f"pair for {I.show(p.cps)}", where, "two escapes used for code points inside the BMP")
+            viol("R10.1", f"pair for {I.show(p.cps)}", "two escapes used for code points inside the BMP")
             return
         hi, lo = nums[0][1], nums[1][1]
         okh = _surrogate(hi, "floordiv", 0xD800)
         okl = _surrogate(lo, "mod", 0xDC00)
         if not (okh and okl):
-            ctx.violation("R10.1", fi.short, f"surrogates {getattr(hi, 'expr', hi)} / {getattr(lo, 'expr', lo)}", where,
+            viol("R10.1", f"surrogates {getattr(hi, 'expr', hi)} / {getattr(lo, 'expr', lo)}",
                           "escapes for code points beyond U+FFFF are not the UTF-16 surrogate pair "
                           "(0xD800 + (cp-0x10000)//1024, 0xDC00 + (cp-0x10000)%1024, each as signed 16-bit)")
     else:
-        ctx.violation("R10.1", fi.short, f"{len(nums)} escapes for {I.show(p.cps)}", where, "unexpected number of \\u escapes per character")
+        viol("R10.1", f"{len(nums)} escapes for {I.show(p.cps)}", "unexpected number of \\u escapes per character")
 
 
 def _surrogate(v, kind: str, base: int) -> bool:
@@ -350,10 +450,10 @@ def check(ctx: Ctx) -> None:
     if len(loops) > 1:
         ctx.extra["escape_loops"] = [f.short for f, _ in loops]
     for fi, loop in loops:
-        r10_5(ctx, cg, fi, loop)
         r10_1_2(ctx, fi, loop, pass_ok)
     ctx.floor("R10.1", 2)
     r10_3(ctx)
     # characters may only be rewritten by the documented passes before they reach the escaper (rule shared with C11)
     from .c11 import r11_4
-    r11_4(ctx)
+    worlds = r11_4(ctx)
+    r10_5(ctx, worlds)
